@@ -188,7 +188,7 @@ fn c15_kstring_pop_front_full() {
     pop_all_shapes(0, true);
 }
 
-// @props C15 C06 C13
+// @props C15 C06:thorough C13:thorough
 // @tier quick
 // @fns KString::pop_back (Full representation), StringSlice::split, From<StringSlice<usize>> for KString, the grapheme segmentation model
 // @bound text of 4 bytes in UTF-8 shapes [1,1,1,1], [1,2,1], [2,2], [3,1], [1,3]; ASCII slots in {a, CR, LF, tab}, 2-byte slots in {U+00E9, U+0301}, 3-byte slot U+5B57
@@ -200,7 +200,7 @@ fn c15_kstring_pop_back_full() {
     pop_all_shapes(0, false);
 }
 
-// @props C15 C06 C13
+// @props C15 C06:thorough C13:thorough
 // @tier quick
 // @fns KString::pop_front (Slice (u16 bounds) representation), StringSlice::split, From<StringSlice<usize>> for KString, the grapheme segmentation model
 // @bound text of 4 bytes in UTF-8 shapes [1,1,1,1], [1,2,1], [2,2], [3,1], [1,3]; ASCII slots in {a, CR, LF, tab}, 2-byte slots in {U+00E9, U+0301}, 3-byte slot U+5B57
@@ -212,7 +212,7 @@ fn c15_kstring_pop_front_slice() {
     pop_all_shapes(1, true);
 }
 
-// @props C15 C06 C13
+// @props C15 C06:thorough C13:thorough
 // @tier quick
 // @fns KString::pop_back (Slice (u16 bounds) representation), StringSlice::split, From<StringSlice<usize>> for KString, the grapheme segmentation model
 // @bound text of 4 bytes in UTF-8 shapes [1,1,1,1], [1,2,1], [2,2], [3,1], [1,3]; ASCII slots in {a, CR, LF, tab}, 2-byte slots in {U+00E9, U+0301}, 3-byte slot U+5B57
